@@ -140,9 +140,10 @@ impl StreamId {
         format!("{}-{}", self.millis(), self.seq())
     }
     
-    /// Generate next ID atomically with optimized timestamp caching
+    /// Generate next ID atomically with optimized timestamp caching.
+    /// Returns None when the last ID is the greatest possible one.
     #[inline(always)]
-    pub fn generate_next_atomic(last_millis: &AtomicU64, last_seq: &AtomicU64) -> Self {
+    pub fn generate_next_atomic(last_millis: &AtomicU64, last_seq: &AtomicU64) -> Option<Self> {
         let now_millis = get_cached_millis();
         let prev_millis = last_millis.load(Ordering::Relaxed);
         
@@ -156,7 +157,7 @@ impl StreamId {
             ) {
                 Ok(_) => {
                     last_seq.store(0, Ordering::Relaxed);
-                    return StreamId::new(now_millis, 0);
+                    return Some(StreamId::new(now_millis, 0));
                 }
                 Err(actual) => {
                     // Someone else updated, use their value
@@ -169,7 +170,7 @@ impl StreamId {
                             Ordering::Relaxed
                         ).is_ok() {
                             last_seq.store(0, Ordering::Relaxed);
-                            return StreamId::new(now_millis, 0);
+                            return Some(StreamId::new(now_millis, 0));
                         }
                     }
                     // Fall through to sequence increment
@@ -178,8 +179,16 @@ impl StreamId {
         }
         
         // Same millisecond, increment sequence
-        let seq = last_seq.fetch_add(1, Ordering::Relaxed);
-        StreamId::new(prev_millis, seq + 1)
+        match last_seq.fetch_update(Ordering::Relaxed, Ordering::Relaxed, |seq| seq.checked_add(1)) {
+            Ok(seq) => Some(StreamId::new(prev_millis, seq + 1)),
+            Err(_) => {
+                // Sequence exhausted: continue with the next millisecond, if there is one
+                let next_millis = prev_millis.checked_add(1)?;
+                last_millis.store(next_millis, Ordering::Relaxed);
+                last_seq.store(0, Ordering::Relaxed);
+                Some(StreamId::new(next_millis, 0))
+            }
+        }
     }
     
     pub fn min() -> Self {
@@ -222,8 +231,9 @@ impl StreamData {
     
     /// Add entry with auto-generated ID - OPTIMIZED HOT PATH
     #[inline]
-    fn add_auto(&mut self, fields: HashMap<Vec<u8>, Vec<u8>>, stream: &Stream) -> StreamId {
-        let id = StreamId::generate_next_atomic(&stream.last_id_millis, &stream.last_id_seq);
+    fn add_auto(&mut self, fields: HashMap<Vec<u8>, Vec<u8>>, stream: &Stream) -> Result<StreamId, &'static str> {
+        let id = StreamId::generate_next_atomic(&stream.last_id_millis, &stream.last_id_seq)
+            .ok_or("The stream has exhausted the last possible ID, unable to add more items")?;
         
         // Pre-calculate size before creating entry
         let fields_size: usize = fields.iter()
@@ -242,7 +252,7 @@ impl StreamData {
         stream.length.fetch_add(1, Ordering::Relaxed);
         stream.memory_usage.fetch_add(entry_size, Ordering::Relaxed);
         
-        id
+        Ok(id)
     }
     
     /// Add entry with specific ID - NO CLONING!
@@ -361,6 +371,11 @@ impl Stream {
     
     /// Add entry with auto-generated ID - DIRECT MUTATION, NO CLONING!
     pub fn add_auto(&self, fields: HashMap<Vec<u8>, Vec<u8>>) -> StreamId {
+        self.try_add_auto(fields).expect("no ID greater than the stream's last ID")
+    }
+    
+    /// Add entry with auto-generated ID; fails when no ID greater than the last one exists
+    pub fn try_add_auto(&self, fields: HashMap<Vec<u8>, Vec<u8>>) -> Result<StreamId, &'static str> {
         let mut data = self.data.lock().unwrap();
         data.add_auto(fields, self)
     }
